@@ -255,7 +255,8 @@ class History:
         elif kind == "chgbnd_nonbasic" and nbc:
             j = self.pick(nbc, det)
             x = self.xval()
-            lu = "L" if (self.acc and self.acc["basis"][0][j] == "0") else "U"
+            b0 = self.acc["basis"][0] if (self.acc and self.acc.get("basis")) else ""
+            lu = "L" if (j < len(b0) and b0[j] == "0") else "U"
             ops = ["CHGBND h0 %d %s %s" % (j, lu, qs(x[j] + (1 if lu == "L" else -1)))]
         elif kind == "chgbnd_cut_basic" and bc:
             j = self.pick(bc, det)
